@@ -436,7 +436,8 @@ func c11Version(x *Ctx) {
 		}
 		return p
 	}
-	sys := NewSrvSys(x, fs.OpsValue(false, false), fs, ms, true, int(c.cfg("maxpend")), int(c.cfg("debug")))
+	withAuth := c.Seed%3 == 0 // the implementation has authentication, and the victim leaves with an authentication fid it never clunked
+	sys := NewSrvSys(x, fs.OpsValue(withAuth, false), fs, ms, true, int(c.cfg("maxpend")), int(c.cfg("debug")))
 	victim := sys.AddConn(0, int(c.cfg("seg")))
 	by := sys.AddConn(0, int(c.cfg("seg")))
 	r := NewRand(c.Seed ^ 0x11b)
@@ -458,6 +459,11 @@ func c11Version(x *Ctx) {
 		}
 		setup = true
 		p := victim.Peer
+		if withAuth {
+			if rr := p.Call(&Msg{Type: Tauth, Tag: 4, Afid: 50, Uname: "u1", Nuname: 1}); rr != nil && rr.M != nil && rr.M.Type == Rauth {
+				x.Probe("authentication-fid-left-at-the-disconnect")
+			}
+		}
 		// first a walk to a new fid that the implementation keeps for a while, and a request that names the new
 		// fid meanwhile (whatever its answer): the new fid is the connection's like any other
 		holdTag[8] = true
@@ -561,6 +567,11 @@ func c11Version(x *Ctx) {
 			x.Violate("d1-wrong-conn-closed", "ConnClosed reported for connection %d, which never disconnected", i.Conn)
 		case i.Op == "fiddestroy":
 			destroyed[i.FidP]++
+		case i.Conn == 0 && i.Op == "authinit" && i.FidP != nil:
+			if _, ok := shown[i.FidP]; !ok {
+				order = append(order, i.FidP)
+			}
+			shown[i.FidP] = 50
 		case i.Conn == 0 && i.Req != nil:
 			for _, fp := range []*go9p.SrvFid{i.FidP, i.NewfidP} {
 				if fp != nil {
